@@ -83,6 +83,7 @@ MinLenSet == {Absent, 0, 1, 2}
 MaxLenSet == {Absent, 0, 2, 3}
 (* every format the oracle can decide at least partly, incl. those whose grammar has the EMPTY text as a member (uri-reference, regex, ..)
    and those where it is the only decided non-member (hostname, email, ..) *)
+CoreFormats == {"uuid", "date", "byte", "date-time", "ipv4"}       \* combined with length keywords; the others stand alone (no minLength / pattern)
 Formats == IF Rich THEN <<"uuid", "date", "byte", "date-time", "ipv4", "uri-reference", "iri-reference", "uri-template", "regex", "json-pointer",
                           "hostname", "email", "uri", "ipv6", "time", "duration">>
            ELSE <<"uuid", "date", "byte", "uri-reference", "regex", "hostname", "uri-template">>
@@ -145,7 +146,7 @@ ExampleSchemas == << Ty("object") @@ [props |-> ExProps, required |-> <<ka, kb, 
                      Ty("object") @@ [props |-> ExProps, required |-> <<ka>>, maxProperties |-> 1],     \* fewer properties allowed than declared
                      Ty("object") @@ [props |-> ExProps, required |-> <<ka>>],                          \* control: satisfiable
                      Ty("object") @@ [props |-> [k |-> <<ka>>, v |-> <<Ty("integer") @@ [example |-> I(1), default |-> I(2), minimum |-> 0]>>], minProperties |-> 2] >>
-ExampleSchemas3 == << Ty("object") @@ [props |-> ExProps, not |-> S0 @@ [required |-> <<kb>>]],        \* `not` forbids a declared property
+ExampleSchemas3 == << Ty("object") @@ [props |-> ExProps, required |-> <<ka, kb>>, maxProperties |-> 1],      \* contradictory object-level constraints
                       Ty("object") @@ [props |-> [k |-> <<ka, kb>>, v |-> <<Ty("string") @@ [examples |-> <<Sv(<<120>>), Sv(<<122>>)>>], Ty("integer")>>], required |-> <<ka, kc>>] >>
 RO(s) == s @@ [readOnly |-> TRUE]
 WO(s) == s @@ [writeOnly |-> TRUE]
@@ -178,7 +179,9 @@ IsSchemaDesc(x) ==      \* x is a member of the schema family  (disjunction of h
   \/ \E d \in AllD, q \in NumIdx : x = D("numeric", d, NumLeaf(q))
   \/ \E d \in {"2.0", "3.0"}, q \in ExclFalseIdx : x = D("numeric", d, ExclFalseLeaf(q))
   \/ \E d \in RichD(AllD), a \in MinLenSet, b \in MaxLenSet, p \in PatIdx : x = D("string", d, StrLeaf(a, b, p, 0))
-  \/ \E d \in RichD(AllD), l \in FmtLens, f \in DOMAIN Formats : x = D("string", d, StrLeaf(l[1], l[2], 0, f))
+  \/ \E d \in RichD(AllD), l \in FmtLens, f \in DOMAIN Formats :
+        /\ (Formats[f] \in CoreFormats \/ l = <<Absent, Absent>>)
+        /\ x = D("string", d, StrLeaf(l[1], l[2], 0, f))
   \/ \E d \in RichD(AllD), j \in DOMAIN EnumLeaves : x = D("enum", d, EnumLeaves[j])
   \/ \E j \in DOMAIN ConstLeaves : x = D("const", "3.1", ConstLeaves[j])
   \/ \E d \in AllD, j \in DOMAIN CoreLeaves : x = D("nullable", d, Nullable(CoreLeaves[j]))
